@@ -29,7 +29,11 @@ def compare(op, impl, model, rep):
             return None
         if a == "error" and str(b).startswith("answer:"):
             return "VIOLATES: a Streamable call got nothing although its own answer was on the POST's response (theorem C01_post_sse_own): %r" % (op,)
+        if c == "pending.postSse" and str(a).startswith("answer:"):
+            return "VIOLATES: a Streamable call took a frame as its answer that the proved matcher does not accept for it (theorem C01_post_sse_sound): call %r returned %r, the model gives %r for events %r" % (op.get("call"), a, b, op.get("evs"))
         return "outcome of the POST differs: implementation %r, model %r" % (a, b)
     if impl != model:
+        if c == "pending.key" and op.get("kind") == "idKey":
+            return "VIOLATES: requestIDKey renders an id differently from the proved key function (theorems C01_key_roundtrip / C01_key_no_collision): %s id %r gives %r, the model %r" % (op.get("side"), op.get("id"), impl.get("key"), model.get("key"))
         return "key / id function differs: implementation %r, model %r" % (impl, model)
     return None
